@@ -45,6 +45,7 @@ type Check struct {
 	noInline   map[string]bool
 	depth      int
 	CallSites  int
+	isShared   bool  // evaluated by shareRules on behalf of another property
 	lastLoops  []int // loops that satisfied the last perIteration query
 	loopFilter []int // if set, onlyAfterExhaustion considers only these loops
 }
@@ -329,7 +330,12 @@ func (c *Check) finish(verifDir string, t0 time.Time, seed int, onlyKey string) 
 // asRule. Used where one structural rule is a necessary condition of two
 // properties.
 func shareRules(c *Check, fn func(*Check), rules []string, asRule, prefix string) int {
+	if c.isShared {
+		// a check evaluated for the sake of another one does not pull in third parties' rules
+		return 1 << 20
+	}
 	sub := newCheck(c.Prop, c.P, c.Tier)
+	sub.isShared = true
 	sub.depth = c.depth
 	fn(sub)
 	want := map[string]bool{}
